@@ -1,4 +1,7 @@
 import XzVerif.Gen.ErrFlow
+import XzVerif.Proofs.Writer2F
+import XzVerif.Proofs.HashTable
+import XzVerif.Proofs.BinTree
 /-
   C09 — I/O failures are never masked.
 
@@ -14,6 +17,29 @@ import XzVerif.Gen.ErrFlow
   tested, control flow that skips the test — is covered by the exhaustive fault enumeration of
   the correspondence check (every sink call index × 4 fault kinds, every source offset).
   Hence `_partial`: the dynamic part is exhaustive per base case, not a theorem.
+
+  **The LZMA2 writer on a failing sink as a theorem.**  `Model/Writer2F.lean` is the Writer2 model of C08 on a sink
+  that may fail: a fault plan says for every sink `Write` call (header of a chunk, its payload — for a raw chunk in one
+  or two pieces as `CopyN` cuts it at the end of the ring —, the end-of-stream byte) whether it succeeds or fails after
+  accepting some of the bytes; the writer stores the error of a failed chunk write and returns it from every later
+  call (the repair of F18); the explicit panics of `writeCompressedChunk`/`writeUncompressedChunk`/`Write` are
+  outcomes of the model.  The correspondence check runs the real `Writer2` over a fault-injecting `io.Writer` and this
+  model on the same histories for every sink call index and four fault kinds, all calls being issued also after the
+  failure: per call the count, error class, sink length, and at the end sink bytes and number of sink calls are equal.
+  Proved, for **every** fault plan (once, for ever, partial writes, any mixture), every valid configuration, every
+  call history and both match finder models:
+  * `C09_writer2_no_call_panics` — no call panics, not before, not during and not after a failure;
+  * `C09_writer2_failure_surfaces_in_the_same_call` — the call during which a sink write fails returns an error;
+    `C09_writer2_failure_never_masked` — hence a history in which the sink failed has a call that returned non-nil;
+  * `C09_writer2_stored_error_is_final` — after a failed chunk write every call returns an error and nothing more
+    reaches the sink;
+  * `C09_writer2_success_only_with_valid_stream` — if every call of a history ending with Close returned nil, the sink
+    holds a complete stream that decodes (strict rules and Go rules) to exactly the data written;
+  * `C09_writer2_no_fault_no_difference` — a run in which no sink call failed is the fault-free run of C08.
+  Before the F18 repair `no_call_panics` is false for the model of the old behaviour, and the real code panicked on the
+  history recorded in known_findings.json.
+  Not covered by a theorem: the xz container writer and the classic LZMA writer on failing sinks, and the readers on
+  failing sources (exhaustive fault enumeration only).
 -/
 namespace Props.C09
 
@@ -40,5 +66,79 @@ theorem C09_no_replaced_by_nil :
 /-- non-vacuity: the table is not empty and contains bound, returned and dropped entries -/
 example : Gen.errFlow.length > 100 ∧ Gen.errFlow.any (fun r => r.2.2.2.2 == "dropped") = true ∧
     Gen.errFlow.any (fun r => r.2.2.2.2 == "returned") = true := by decide +kernel
+
+/-! ### the LZMA2 writer on a failing sink (Model/Writer2F.lean) -/
+
+open W2 W2F in
+theorem C09_writer2_no_call_panics {σ : Type} (c : Cfg) (hc : CfgOk c) (M : Matcher σ)
+    (I : σ → ByteArray → ByteArray → Prop) (hI : MatcherInv c M I) (m0 : σ) (h0 : I m0 ByteArray.empty ByteArray.empty)
+    (F : Plan) (calls : List Call) :
+    ∀ r ∈ (W2F.run c M F (W2F.init c m0) calls).2, r.1.panic = false :=
+  W2F.no_panic c hc M I hI m0 h0 F calls
+
+open W2 W2F in
+theorem C09_writer2_no_call_panics_hashtable4 (c : Cfg) (hc : CfgOk c) (F : Plan) (calls : List Call) :
+    ∀ r ∈ (W2F.run c HT.HT4 F (W2F.init c (HT.St.new c.dictCap c.bufSize)) calls).2, r.1.panic = false :=
+  W2F.no_panic c hc HT.HT4 (HT.Synced c) (HT.ht4_matcherInv c) _ (HT.synced_new c) F calls
+
+open W2 W2F in
+theorem C09_writer2_no_call_panics_bintree (c : Cfg) (hc : CfgOk c) (F : Plan) (calls : List Call) :
+    ∀ r ∈ (W2F.run c BT.BT4 F (W2F.init c (BT.St.new c.dictCap c.bufSize)) calls).2, r.1.panic = false :=
+  W2F.no_panic c hc BT.BT4 (BT.Synced c) (BT.bt4_matcherInv c) _ (BT.synced_new c) F calls
+
+open W2 W2F in
+/-- no hypothesis at all: whatever the configuration, the match finder and the state -/
+theorem C09_writer2_failure_surfaces_in_the_same_call {σ : Type} (c : Cfg) (M : Matcher σ) (F : Plan) (s : FSt σ)
+    (call : Call) (h0 : s.hit = false) (h1 : (W2F.step c M F s call).1.hit = true) :
+    (W2F.step c M F s call).2.err ≠ none :=
+  W2F.step_hit c M F s call h0 h1
+
+open W2 W2F in
+theorem C09_writer2_failure_never_masked {σ : Type} (c : Cfg) (M : Matcher σ) (F : Plan) (m0 : σ) (calls : List Call)
+    (h : (W2F.run c M F (W2F.init c m0) calls).1.hit = true) :
+    ∃ r ∈ (W2F.run c M F (W2F.init c m0) calls).2, r.1.err ≠ none :=
+  W2F.hit_surfaces c M F m0 calls h
+
+open W2 W2F in
+theorem C09_writer2_stored_error_is_final {σ : Type} (c : Cfg) (M : Matcher σ) (F : Plan) (s : FSt σ) (call : Call)
+    (h : s.err ≠ none) :
+    (W2F.step c M F s call).1 = s ∧ (W2F.step c M F s call).2.err ≠ none ∧ (W2F.step c M F s call).2.panic = false :=
+  W2F.step_sticky c M F s call h
+
+open W2 W2F Lzma2 in
+theorem C09_writer2_success_only_with_valid_stream {σ : Type} (strict : Bool) (c : Cfg) (hc : CfgOk c) (M : Matcher σ)
+    (I : σ → ByteArray → ByteArray → Prop) (hI : MatcherInv c M I) (m0 : σ) (h0 : I m0 ByteArray.empty ByteArray.empty)
+    (F : Plan) (calls : List Call) (hnc : ∀ call ∈ calls, ¬ (call matches .close))
+    (hok : W2F.allOk (W2F.run c M F (W2F.init c m0) (calls ++ [.close])).2) :
+    let s := (W2F.run c M F (W2F.init c m0) (calls ++ [.close])).1
+    ∃ r, decode strict c.dictCap s.w.out 0 ByteArray.empty = (r, .eof) ∧
+      r.h.out = payload calls ∧ r.pos = s.w.out.size ∧ r.seq = .ended :=
+  W2F.all_nil_means_valid_stream strict c hc M I hI m0 h0 F calls hnc hok
+
+open W2 W2F Lzma2 in
+theorem C09_writer2_success_only_with_valid_stream_hashtable4 (strict : Bool) (c : Cfg) (hc : CfgOk c)
+    (F : Plan) (calls : List Call) (hnc : ∀ call ∈ calls, ¬ (call matches .close))
+    (hok : W2F.allOk (W2F.run c HT.HT4 F (W2F.init c (HT.St.new c.dictCap c.bufSize)) (calls ++ [.close])).2) :
+    let s := (W2F.run c HT.HT4 F (W2F.init c (HT.St.new c.dictCap c.bufSize)) (calls ++ [.close])).1
+    ∃ r, decode strict c.dictCap s.w.out 0 ByteArray.empty = (r, .eof) ∧
+      r.h.out = payload calls ∧ r.pos = s.w.out.size ∧ r.seq = .ended :=
+  W2F.all_nil_means_valid_stream strict c hc HT.HT4 (HT.Synced c) (HT.ht4_matcherInv c) _ (HT.synced_new c) F calls hnc hok
+
+open W2 W2F in
+theorem C09_writer2_no_fault_no_difference {σ : Type} (c : Cfg) (hc : CfgOk c) (M : Matcher σ)
+    (I : σ → ByteArray → ByteArray → Prop) (hI : MatcherInv c M I) (m0 : σ) (h0 : I m0 ByteArray.empty ByteArray.empty)
+    (F : Plan) (calls : List Call) (hnc : ∀ call ∈ calls.dropLast, ¬ (call matches .close))
+    (hh : (W2F.run c M F (W2F.init c m0) calls).1.hit = false) :
+    (W2F.run c M F (W2F.init c m0) calls).1.w = (W2.run c M (W2.init c m0) calls).1 ∧
+    (W2F.run c M F (W2F.init c m0) calls).1.err = none ∧
+    (W2F.run c M F (W2F.init c m0) calls).2.map (fun r => (r.1.n, r.1.err.isNone, r.2)) =
+      (W2.run c M (W2.init c m0) calls).2.map (fun r => (r.1.n, r.1.err.isNone, r.2)) :=
+  W2F.run_no_hit c hc M I hI m0 h0 F calls hnc hh
+
+/-- non-vacuity: a fault plan that fails the second sink call once, and one that never fails, are plans; the premise
+    `hit = true` of the masking theorem is met by a concrete run (one Write of 1 byte, Close, first sink call fails) -/
+example : ((W2F.run { props := ⟨3, 0, 2⟩, dictCap := 4096, bufSize := 4096 } W2.Script (W2F.planOf 1 0)
+    (W2F.init { props := ⟨3, 0, 2⟩, dictCap := 4096, bufSize := 4096 } [W2.GoOp.lit 1])
+    [.write ⟨#[1]⟩, .close]).1.hit = true) := by decide +kernel
 
 end Props.C09
